@@ -125,6 +125,8 @@ def derive(kind, op, x):
         return svg.Path("M 20,20 L 21,22") + x
     if op == "addpath":            # segment + Path
         return x + svg.Path("L 30,31 L 32,30")
+    if op == "pathaddview":        # a view of x is the right operand of Path + subpath: the sum holds copies of x's segments
+        return svg.Path("M 20,20 L 21,22") + x.subpath(0)
     if op == "pathiadd":           # x (a path) is the right operand of Path += x
         left = svg.Path("M 20,20 L 21,22")
         left += x
